@@ -686,6 +686,16 @@ func (m *Machine) builtinExternal(fn *ssa.Function, args []Value) (Value, bool) 
 			return FloatC(math.Inf(-1)), true
 		}
 	}
+	// text plumbing (error messages): functions of strings / strconv / fmt / errors / unicode never touch tensor
+	// state; their results are unknown strings, fresh integers, fresh errors.  Builder methods are no-ops.
+	if fn.Pkg != nil {
+		switch fn.Pkg.Pkg.Path() {
+		case "strings", "strconv", "fmt", "errors", "unicode", "unicode/utf8", "bytes":
+			if v, ok := m.textResult(fn, args); ok {
+				return v, true
+			}
+		}
+	}
 	// any other function of package math over floats: an uninterpreted function symbol (consistent on both sides)
 	if fn.Pkg != nil && fn.Pkg.Pkg.Path() == "math" && len(args) >= 1 && fn.Signature.Results().Len() == 1 {
 		if _, isF := fn.Signature.Results().At(0).Type().Underlying().(*types.Basic); isF {
@@ -808,4 +818,51 @@ func (m *Machine) stdSummary(fn *ssa.Function, args []Value) (Value, bool) {
 		return nil, true
 	}
 	return nil, false
+}
+
+// textResult fabricates the result of a text-plumbing function from its result types.
+func (m *Machine) textResult(fn *ssa.Function, args []Value) (Value, bool) {
+	res := fn.Signature.Results()
+	mk := func(t types.Type) (Value, bool) {
+		if types.Identical(t, types.Universe.Lookup("error").Type()) {
+			switch fn.Name() {
+			case "New", "Errorf", "Join":
+				return ErrV{Msg: "error built by " + fn.Pkg.Pkg.Path() + "." + fn.Name()}, true
+			}
+			return NilV{}, true // conversions that cannot fail on the values the library feeds them are not modelled
+		}
+		switch u := t.Underlying().(type) {
+		case *types.Basic:
+			switch {
+			case u.Info()&types.IsString != 0:
+				return StrV{Known: false}, true
+			case u.Info()&types.IsInteger != 0:
+				return IntV{P: sym.PAtom(m.FreshSym("textint"))}, true
+			case u.Info()&types.IsBoolean != 0:
+				return BoolV{C: sym.RealEQ(sym.SymE(m.FreshSym("textbool")), sym.Expr{})}, true
+			case u.Info()&types.IsFloat != 0:
+				return FloatV{E: sym.SymE(m.FreshSym("textfloat"))}, true
+			}
+		case *types.Slice:
+			if b, ok := u.Elem().Underlying().(*types.Basic); ok && (b.Info()&types.IsString != 0 || b.Kind() == types.Byte) {
+				return OpaqueV{Why: "text produced by " + fn.Name()}, true
+			}
+		}
+		return nil, false
+	}
+	switch res.Len() {
+	case 0:
+		return nil, true
+	case 1:
+		return mk(res.At(0).Type())
+	}
+	vs := make([]Value, res.Len())
+	for i := range vs {
+		v, ok := mk(res.At(i).Type())
+		if !ok {
+			return nil, false
+		}
+		vs[i] = v
+	}
+	return TupleV{vs}, true
 }
